@@ -143,7 +143,7 @@ ADDENDA = {
     "C05": "Keys and counted values that differ only in the position of a blank are included. The row model registers IsUnique keys for accepted rows only (the difference to the implementation is the known finding KF-C05-key-of-rejected-row); an optional counted field and tab-holding keys are included. Short tables also go through the command line. Field names differing only in case are included. Keys holding a comma and a blank are included; cutplace.validate() runs without limit and with limits of all rows and all but the last.",
     "C06": "The unterminated-quote fault is injected under six quote / escape / quoting / line-delimiter configurations, also into single-record data; undecodable bytes also sit where a line delimiter is read; the tree's own binary .xls workbook is damaged byte by byte (any ending but a cutplace data error fails, a container failure must show in every mode). A run that ends with anything but a cutplace error fails by itself; NaN and non-decimal digits are among the rejected cells; tables shorter than the header are judged. Archives are also damaged by inverting single bytes. Container faults also arrive through stream sources. Fixed data with CR record ends under 'any' are included.",
     "C07": "One Reader object is iterated three times over a rewound source; delimited header records also span several physical lines; an allowed-characters declaration is violated by header rows and by rows behind the limit; ODS and Excel data (also with rows of empty cells) and limits beyond 256 are included. The product is repeated under a CID with IsUnique and DistinctCount checks (repeated key as the bad row, failing end-of-data verdicts, verdict of close()). Data that end inside the header are included. Fixed data without line delimiter are included. validate() with a limit is given data torn behind the limit. Excel sheets with a date cell that cannot be converted at every row are validated under every limit.",
-    "C08": "27 operations including a Reader iterated twice and a Writer used as context manager; three CIDs (delimited, fixed, fixed with CR line ends under 'any'). Operations also include validate with a limit of 0 / 1, a Reader opened and closed unread, and data with a rejected choice / disallowed character; the CID's definition is part of the canonical state. Reads with a validation limit through cutplace.rows and repeated empty required values are included. A repeated pass over one Reader must equal its first pass. Multi-part ranges and runs finalised during another run are included.",
+    "C08": "27 operations including a Reader iterated twice and a Writer used as context manager; three CIDs (delimited, fixed, fixed with CR line ends under 'any'). Operations also include validate with a limit of 0 / 1, a Reader opened and closed unread, and data with a rejected choice / disallowed character; the CID's definition is part of the canonical state. Reads with a validation limit through cutplace.rows and repeated empty required values are included. A repeated pass over one Reader must equal its first pass. Multi-part ranges and runs finalised during another run are included. A data set without any row is read, validated, written and judged by the command line in every state (43 operations).",
     "C09": "Every CID is loaded twice (verdict and definition must not change); every pair of property rows is exchanged and the block reversed; every field-row defect is repeated without the example (nothing else may be the reason for the rejection); untokenizable check rules, touching range items and allowed characters with quoted upper-case limits are included. Field names with non-ASCII digits and letters are included. Invalid values for every data format property, reversed lengths ending at 0 and DateTime rules repeating a part are included. Integer fields without rule and with a non-positive length are included. Shifted check rows and property names that are method names are included. Blanks and tabs around length cells and the allowed-characters value are included.",
     "C10": "Pool extended by 'sound first token + broken rest' values, lengths open on both sides and continuation-line rules; 33 natively typed Excel cells (date / time / duration formatted numbers outside the date range, extreme numbers, booleans, error values) at every data position; bit flips over the tree's own .xls workbook, each read under an alarm (non-termination is reported). Sheet numbers right behind the last sheet, digits that are no decimal digits and regular expressions the compiler gives up on are in the pool. Streams whose name is None, empty or a number are used as sources and targets; huge hexadecimal limits are in the pool. Property names that are attribute names of the loaded objects are in the pool. All delimited / fixed properties are present in the base CIDs; ODS repeat-count attributes and rules reaching for builtins are in the pool. Cells too long for a fixed field only by surrounding blanks, no-break spaces next to names in check rules and raw xlsx number cells (NaN, Infinity, 1e400; date formatted and plain) are included.",
     "C11": "Every case is loaded twice, and all cases run several times in one single process (accept-first, reversed, forward) with a history-independent verdict required; allowed-characters values are probed code point by code point. Raw line-break characters as line delimiter value and equal separators next to every line delimiter setting (three declaration orders) are included. Encoding names with colons and blanks are included. The escape character is declared next to every quote character in both orders. Every property is also given empty, blank and valid values followed by remark cells.",
@@ -153,9 +153,9 @@ ADDENDA = {
     "C15": "Hostile repeat counts include signs, superscript and circled digits, zero in several spellings. Cell comments (office:annotation) are a producer feature. Documents are also read twice from one open stream. Pretty-printed content.xml, named in-memory streams and absurd repeat counts / nesting are included. Archives are damaged by inverting single bytes; sheet names hold percent signs. Every fault is also read through cutplace.rows() in the lenient error modes; hyperlink elements around text are included.",
     "C16": "Every pattern of stored / missing cells in small sparse sheets is enumerated (rows padded to the sheet width); midnight and 23:59:59 are among the time cells. Strings that look like markup, formulas or links and strings at the 32767-character limit go through the writer; date cells are read under date-only DateTime fields. Mixed write_row() / write_rows() calls and a refused row between ordinary rows are included. Workbooks in the 1904 date system and long cells full of control characters are included.",
     "C17": "ODS data are stored with column runs, inline elements and one paragraph per line; delimited data as a UTF-8 file the reader opens itself; tables include rows ending in empty cells, U+0085 / U+2028 and a leading U+FEFF; delimiter-rich one-field CIDs are included. Cell comments in ODS CIDs and data and rows of empty cells between other rows are included. Padded and blank-only cells and a date text with a midnight suffix are included. Tables wider than the CID and CID files with capital suffixes are included. CIDs with blanks in front of descriptions, rules and examples, and multi-line header cells are included. CIDs and data are also stored with hyperlink elements around text.",
-    "C18": "CIDs with one and two header rows, field-less CIDs, empty data files and data in the data format's default encoding are included. Missing CIDs named like ODS / Excel files are included. Data file names with glob characters are included.",
+    "C18": "CIDs with one and two header rows, field-less CIDs, empty data files and data in the data format's default encoding are included. Missing CIDs named like ODS / Excel files are included. Data file names with glob characters are included. A CID whose verdict falls at the end of the data (DistinctCount) is judged under every --until.",
     "C19": "Every reserved word of every dialect (lower, upper, title case) is used as a field name against a reference copy of the keyword lists; one factory is asked twice; lengths with lower limit 0 and mixed-case names are included. Text lengths around 255 / 4000 / 8000 / 32672 / 65535 / 2^31 are included. Fields added through the API with a default are included. Encoding properties, checks over optional fields and the command line's --create (CIDs as csv / ods / xlsx) are included. The separators between column definitions are checked.",
-    "C20": "A field with the multi-part length '1, 3...4' is included; for the writer, header rows hold line breaks; two or three Readers are constructed up front on one CID; the allowed-characters row also follows the field rows. Allowed characters and multi-part lengths are also declared higher part first; check descriptions sort in the reverse of their declaration order. Multi-byte cells under UTF-8, plugin folders with glob characters and the command line with --plugins / --until are included. The row of empty cells always stays in the row pools; an all-optional configuration is included. Fixed data without line delimiter behind header records and a garbage collection after the plugin import are included. An entry point that fails before its first row is reported as a differing call sequence.",
+    "C20": "A field with the multi-part length '1, 3...4' is included; for the writer, header rows hold line breaks; two or three Readers are constructed up front on one CID; the allowed-characters row also follows the field rows. Allowed characters and multi-part lengths are also declared higher part first; check descriptions sort in the reverse of their declaration order. Multi-byte cells under UTF-8, plugin folders with glob characters and the command line with --plugins / --until are included. The row of empty cells always stays in the row pools; an all-optional configuration is included. Fixed data without line delimiter behind header records and a garbage collection after the plugin import are included. An entry point that fails before its first row is reported as a differing call sequence. Classes defined after a CID was loaded in the same process must resolve and be driven like classes defined up front.",
 }
 
 
